@@ -2045,10 +2045,17 @@ def r_json_load(E):
     rel, fn = pm.find_function(J2S, "json_to_system")
     wrappers = {"ListLinkedToModelingObj": "list of links", "ContextualModelingObjectAttribute": "link",
                 "json_to_explainable_object": "explainable value"}
-    for c in _calls(fn):
+    # (the conversions may sit in module-level helpers of the loader: read where they are called from)
+    from ..astutil import nodes_through_helpers as _nth_jl
+    _conv_calls = [n_ for n_ in _nth_jl(fn, find_function=pm.function_finder(rel), depth=2) if isinstance(n_, ast.Call)]
+    _seen_conv = set()
+    for c in _conv_calls:
         nm = c.func.id if isinstance(c.func, ast.Name) else None
         if nm not in wrappers:
             continue
+        if (nm, norm(c), getattr(c, "lineno", 0)) in _seen_conv:
+            continue
+        _seen_conv.add((nm, norm(c), getattr(c, "lineno", 0)))
         res.instances += 1
         # enclosing ifs up to the nearest for loop over attributes
         extra = []
@@ -2067,7 +2074,14 @@ def r_json_load(E):
                 conj = _flat(par.test)
                 for cj in conj:
                     t = norm(cj)
-                    kind_test = "type(" in t or "isinstance(" in t
+                    # (a kind test *is* the conjunct — `type(v) == list`, `isinstance(v, dict)`, negated or not — not any
+                    # expression that happens to contain one: `(found := [… if type(e) == str …])` tests the content)
+                    cj0 = cj.operand if isinstance(cj, ast.UnaryOp) and isinstance(cj.op, ast.Not) else cj
+                    kind_test = (isinstance(cj0, ast.Compare) and isinstance(cj0.left, ast.Call)
+                                 and norm(cj0.left.func) == "type") or (
+                        isinstance(cj0, ast.Call) and norm(cj0.func) in ("isinstance", "issubclass")) or (
+                        isinstance(cj0, ast.Compare) and any(isinstance(y_, ast.Call) and norm(y_.func) == "type"
+                                                             for y_ in cj0.comparators))
                     name_excl = isinstance(cj, ast.Compare) and len(cj.ops) == 1 and isinstance(cj.left, ast.Name) and (
                         (isinstance(cj.ops[0], (ast.Eq, ast.NotEq)) and isinstance(cj.comparators[0], ast.Constant)
                          and isinstance(cj.comparators[0].value, str)) or
